@@ -106,27 +106,33 @@ def call_sig(rec):
 
 
 def linear_extensions(calls, limit):
-    """Linear extensions of the real-time order (a before b iff a returned before b was invoked), enumerated so
-    that orders close to the return order come first."""
+    """Candidate linearizations: linear extensions of the real-time order (a before b iff a returned before b was invoked).
+    The return order comes first, then the orders reachable from it by 1, 2, ... adjacent transpositions of overlapping calls
+    (a call that released the lock may be stamped after a later one). Returns (orders, exhaustive): exhaustive is True when
+    EVERY linear extension is in the list (so that "none matches" is a definite answer)."""
     n = len(calls)
-    order = sorted(range(n), key=lambda i: calls[i]["t1"])
     before = {i: {j for j in range(n) if calls[j]["t1"] < calls[i]["t0"]} for i in range(n)}
-    out = []
-
-    def rec(done, seq):
-        if len(out) >= limit:
-            return
-        if len(seq) == n:
-            out.append(list(seq))
-            return
-        for i in order:
-            if i in done or not before[i] <= done:
-                continue
-            seq.append(i)
-            rec(done | {i}, seq)
-            seq.pop()
-    rec(frozenset(), [])
-    return out
+    base = tuple(sorted(range(n), key=lambda i: calls[i]["t1"]))
+    seen, out, frontier = {base}, [list(base)], [base]
+    while frontier and len(out) < limit:
+        nxt = []
+        for o in frontier:
+            for k in range(n - 1):
+                a, b = o[k], o[k + 1]
+                if a in before[b]:
+                    continue            # a really precedes b
+                p = o[:k] + (b, a) + o[k + 2:]
+                if p not in seen:
+                    seen.add(p)
+                    out.append(list(p))
+                    nxt.append(p)
+                    if len(out) >= limit:
+                        break
+            if len(out) >= limit:
+                break
+        frontier = nxt
+    # adjacent transpositions of incomparable elements connect all linear extensions: an empty frontier means all were listed
+    return out, (not frontier and len(out) < limit)
 
 
 def seq_history(job, calls, order):
@@ -151,7 +157,7 @@ def check_linearizable(job, run, limit=120):
     calls = []
     for r in conc:
         calls.append(dict(t0=r["t0"], t1=r["t1"], call=job["threads"][r["thread"]][r["i"]], rec=r))
-    exts = linear_extensions(calls, limit)
+    exts, exhaustive = linear_extensions(calls, limit)
     nset = len(job["setup"])
     best = None
     for k in range(0, len(exts), 12):
@@ -168,7 +174,8 @@ def check_linearizable(job, run, limit=120):
             if best is None:
                 bad = [(j, calls[i]["call"]["op"], call_sig(calls[i]["rec"]), call_sig(r[nset + j])) for j, i in enumerate(o) if call_sig(r[nset + j]) != call_sig(calls[i]["rec"])]
                 best = dict(order=o, differing_calls=bad[:4], tree_only_concurrent=[x for x in tree if x not in t2][:4], tree_only_sequential=[x for x in t2 if x not in tree][:4])
-    return "not-linearizable", dict(tried=len(exts), closest=best)
+    # none of the candidates matches: a definite answer only if every linear extension was tried
+    return ("not-linearizable" if exhaustive else "inconclusive"), dict(tried=len(exts), exhaustive=exhaustive, closest=best)
 
 
 def conc_stream(ctx):
